@@ -152,6 +152,11 @@ class ContentElement:
       if self.parent() is not None:
         raise RuntimeError("Element must be removed from parent first")
 
+      if isinstance(self._doc, ContentDocument) and (
+          self._doc.get_body() is self or self._doc.get_region(self.get_id()) is self
+        ):
+        raise RuntimeError("Element must be removed from the document first")
+
       self.set_region(None)
 
     else:
@@ -162,10 +167,14 @@ class ContentElement:
         if e.is_attached():
           raise RuntimeError("Element must be detached first")
 
-    self._doc = doc
+    # pylint: disable=W0212
 
-    for e in self:
-      e.set_doc(doc)
+    for e in self.dfs_iterator():
+      if doc is None:
+        e._region = None
+      e._doc = doc
+
+    # pylint: enable=W0212
 
   # hierarchical structure
 
